@@ -7,6 +7,7 @@ use super::types::{
     TypePosition, apply_template_type_substitution, is_illegal_variable_name, parse_input_modifier,
     parse_interpolation_modifier, parse_precise, parse_type_for_usage,
 };
+use crate::casting::ImplicitConversion;
 use rssl_ast as ast;
 use rssl_ir as ir;
 use rssl_text::{Locate, Located};
@@ -456,7 +457,22 @@ fn parse_paramtype(param: &ast::FunctionParam, context: &mut Context) -> TyperRe
     let default_expr = match &param.default_expr {
         Some(expr) => {
             // TODO: We do not currently handle the conversion to the parameter type
-            let ir_expr = parse_expr(expr, context)?.0;
+            let (ir_expr, expr_ty) = parse_expr(expr, context)?;
+
+            // The value still has to be convertible to the parameter type
+            // Inside a template the types may not be known until the template is instantiated
+            if !is_dependent_type(type_id, context)
+                && !is_dependent_type(expr_ty.0, context)
+                && ImplicitConversion::find(expr_ty, type_id.to_rvalue(), &mut context.module)
+                    .is_err()
+            {
+                return Err(TyperError::InitializerExpressionWrongType(
+                    expr_ty.0,
+                    type_id,
+                    name.location,
+                ));
+            }
+
             Some(ir_expr)
         }
         None => None,
@@ -471,6 +487,18 @@ fn parse_paramtype(param: &ast::FunctionParam, context: &mut Context) -> TyperRe
         semantic,
         default_expr,
     })
+}
+
+/// Check if a type is built from a template parameter
+fn is_dependent_type(id: ir::TypeId, context: &Context) -> bool {
+    match context.module.type_registry.get_type_layer(id) {
+        ir::TypeLayer::TemplateParam(_) => true,
+        ir::TypeLayer::Vector(inner, _)
+        | ir::TypeLayer::Matrix(inner, _, _)
+        | ir::TypeLayer::Array(inner, _)
+        | ir::TypeLayer::Modifier(_, inner) => is_dependent_type(inner, context),
+        _ => false,
+    }
 }
 
 /// Remove modifiers like const from param type as seen from signature
